@@ -449,3 +449,7 @@ mod tests {
         assert_eq!(unquote_str("invalid"), None);
     }
 }
+
+#[cfg(kani)]
+#[path = "/verif/harness/anda_kip/parser.rs"]
+mod verif_kani;
